@@ -5,6 +5,6 @@ suite="--skip-suite"; [ "$1" = "--suite" ] && { suite=""; shift; }
 for p in "$@"; do
   grep "^$p	" seeded/seeds.tsv | while IFS='	' read prop i pkg tags; do
     echo "=== $prop-$i"
-    python3 tools/verifyseed.py $prop out/seeds/$prop $i $pkg $suite ${tags:+--tags $tags} 2>&1 | grep -E "^(demo|check|suite|\{|kept|NOT|patch does|does not)" 
+    python3 tools/verifyseed.py $prop seeded/_incoming/$prop $i $pkg $suite ${tags:+--tags $tags} 2>&1 | grep -E "^(demo|check|suite|\{|kept|NOT|patch does|does not)" 
   done
 done
